@@ -1949,7 +1949,16 @@ def symbolic_groupby(interp, it, key, node):
     gi = SrcIter(garr, G, 'groupby')
     gi.group_source = it
     gi.keyfn = key
-    return MapIter(gi, lambda e: (True, (GroupKey(e.t), get_iter(interp, view_seq(SCell(grp_rows(e.t))), node))))
+    kf = getattr(interp, 'group_key_factory', None)
+
+    def deliver(e):
+        rows = get_iter(interp, view_seq(SCell(grp_rows(e.t))), node)
+        rows.group_elem = e.t            # which group this iterator runs over (ghost)
+        return True, ((kf(e.t) if kf is not None else GroupKey(e.t)), rows)
+    hook = getattr(interp, 'on_groupby', None)
+    if hook is not None:
+        hook(gi)
+    return MapIter(gi, deliver)
 
 
 @_b('product')
